@@ -200,6 +200,27 @@ func main() {
 			f3: func(s sdf.SDF3) sdf.SDF3 { return sdf.Offset3D(s, 0.125) }, m3: func(p v3.Vec) v3.Vec { return p },
 			f2: func(s sdf.SDF2) sdf.SDF2 { return sdf.Offset2D(s, 0.125) }, m2: func(p v2.Vec) v2.Vec { return p }},
 	}
+	// rigid placements computed by RotateToVector (parallel, anti-parallel, general; unit and non-unit
+	// directions): the matrix must be an isometry (orthonormal axes; the library returns the
+	// point reflection -I for opposite directions, which keeps distances), and a placed exact primitive stays exact
+	for _, pr := range [][2]v3.Vec{{{Z: 1}, {Z: -1}}, {{Z: 1}, {Z: -2}}, {{Z: 25.4}, {Z: -0.5}}, {{X: 2}, {X: -3}}, {{Y: -1}, {Y: 4}}, {{Z: 2}, {X: 1, Y: 2, Z: 2}}, {{X: 1, Y: 1}, {X: -3, Y: -3}}, {{Z: 3}, {Z: 0.5}}} {
+		m := sdf.RotateToVector(pr[0], pr[1])
+		name := fmt.Sprintf("RotateToVector(%v,%v)", pr[0], pr[1])
+		ok := true
+		ex, ey, ez := m.MulPosition(v3.Vec{X: 1}).Sub(m.MulPosition(v3.Vec{})), m.MulPosition(v3.Vec{Y: 1}).Sub(m.MulPosition(v3.Vec{})), m.MulPosition(v3.Vec{Z: 1}).Sub(m.MulPosition(v3.Vec{}))
+		for _, d := range []float64{ex.Length() - 1, ey.Length() - 1, ez.Length() - 1, ex.Dot(ey), ey.Dot(ez), ez.Dot(ex), m.MulPosition(v3.Vec{}).Length()} {
+			if !(math.Abs(d) <= 1e-12) {
+				ok = false
+			}
+		}
+		states++
+		if !ok {
+			c.Violation("not-euclidean|RotateToVector|matrix-is-not-an-isometry", fmt.Sprintf("%s maps the axes to %v %v %v: placing an exact primitive with it no longer gives a distance field", name, ex, ey, ez), map[string]any{"a": pr[0], "b": pr[1]})
+			continue
+		}
+		inv := m.Inverse()
+		variants = append(variants, variant{name: "placed with " + name, k: 1, f3: func(s sdf.SDF3) sdf.SDF3 { return sdf.Transform3D(s, m) }, m3: func(p v3.Vec) v3.Vec { return inv.MulPosition(p) }})
+	}
 	type job struct {
 		p prim
 		v variant
@@ -208,6 +229,9 @@ func main() {
 	for _, p := range ps {
 		classes[p.class] = true
 		for _, v := range variants {
+			if p.s == nil && v.f2 == nil && v.f3 != nil {
+				continue // 3D-only placement
+			}
 			jobs = append(jobs, job{p, v})
 		}
 	}
@@ -234,7 +258,7 @@ func main() {
 						want := j.v.k*j.p.o3(q) - j.v.off
 						got := s.Evaluate(p)
 						n++
-						if math.Abs(got-want) > tol*(1+math.Abs(want)/j.p.scale) {
+						if !(math.Abs(got-want) <= tol*(1+math.Abs(want)/j.p.scale)) {
 							c.Violation("not-euclidean|"+j.p.class+"|"+strings.Split(j.v.name, " ")[0], fmt.Sprintf("%s (%s) at %v: Evaluate %g, Euclidean distance %g", j.p.name, j.v.name, p, got, want), desc)
 							atomic.AddInt64(&pts, n)
 							return
@@ -257,7 +281,7 @@ func main() {
 					want := j.v.k*j.p.o2(q) - j.v.off
 					got := s.Evaluate(p)
 					n++
-					if math.Abs(got-want) > tol*(1+math.Abs(want)/j.p.scale) {
+					if !(math.Abs(got-want) <= tol*(1+math.Abs(want)/j.p.scale)) {
 						c.Violation("not-euclidean|"+j.p.class+"|"+strings.Split(j.v.name, " ")[0], fmt.Sprintf("%s (%s) at %v: Evaluate %g, Euclidean distance %g", j.p.name, j.v.name, p, got, want), desc)
 						atomic.AddInt64(&pts, n)
 						return
@@ -292,7 +316,7 @@ func main() {
 					}
 					got := s.Evaluate(q)
 					pts++
-					if math.Abs(got-want) > 1e-9*(1+p.scale)*(1+math.Abs(want)/p.scale) {
+					if !(math.Abs(got-want) <= 1e-9*(1+p.scale)*(1+math.Abs(want)/p.scale)) {
 						c.Violation("not-euclidean|Revolve3D("+p.class+")|full-revolution", fmt.Sprintf("Revolve3D(%s at x=%g) at %v: Evaluate %g, Euclidean distance %g", p.name, sh, q, got, want), map[string]any{"profile": p.name, "shift": sh})
 						break
 					}
